@@ -40,6 +40,11 @@ Fixpoint bytes_eqb (a b : list byte) : bool :=
   | _, _ => false
   end.
 
+(* effectiveCookieSecret: the configured secret when one is configured (non-empty), otherwise the
+   32 bytes this connection drew from its random source *)
+Definition effective_secret (configured drawn : list byte) : list byte :=
+  if Nat.eqb (length configured) 0 then drawn else configured.
+
 Section WithHMAC.
   Variable hmac : list byte -> list byte -> list byte.   (* key, message *)
 
